@@ -95,14 +95,23 @@ def build(rng, family):
         # for unions (x = 1 and x = -1), together with duplicate cards used
         # with opposite signs in the main branch of a union
         pos = rnd(rng, 2, 4)
-        deck.surfs += [M.Surf(1, 'px', [1]), M.Surf(2, 'py', [pos]),
-                       M.Surf(3, 'py', [pos]), M.Surf(4, 'pz', [0.5]),
-                       M.Surf(5, 'so', [5.0]), M.Surf(6, 'px', [-1])]
-        geoms = [M.OR(M.AND(M.S(2), M.S(-3), M.S(4)), M.S(-5)),
-                 M.AND(M.S(5), M.S(1), M.OR(M.S(-2), M.S(4))),
-                 M.AND(M.S(5), M.S(-1), M.S(6)),
-                 M.AND(M.S(5), M.S(-6), M.OR(M.AND(M.S(3), M.S(-2)),
-                                               M.AND(M.S(-4), M.S(2))))]
+        # the numbers are dealt at random: which of the two colliding user
+        # planes has the lower number decides which auxiliary plane is
+        # merged into which
+        ids = [1, 2, 3, 4, 5, 6]
+        rng.shuffle(ids)
+        s_a, s_b, s_c, s_d, s_e, s_f = ids
+        xa, xf = rng.choice([(1, -1), (1, -1), (1.5, -1), (1, -1.5)])
+        deck.surfs += [M.Surf(s_a, 'px', [xa]), M.Surf(s_b, 'py', [pos]),
+                       M.Surf(s_c, 'py', [pos]), M.Surf(s_d, 'pz', [0.5]),
+                       M.Surf(s_e, 'so', [5.0]), M.Surf(s_f, 'px', [xf])]
+        deck.surfs.sort(key=lambda sur: sur.id)
+        geoms = [M.OR(M.AND(M.S(s_b), M.S(-s_c), M.S(s_d)), M.S(-s_e)),
+                 M.AND(M.S(s_e), M.S(s_a), M.OR(M.S(-s_b), M.S(s_d))),
+                 M.AND(M.S(s_e), M.S(-s_a), M.S(s_f)),
+                 M.AND(M.S(s_e), M.S(-s_f),
+                       M.OR(M.AND(M.S(s_c), M.S(-s_b)),
+                            M.AND(M.S(-s_d), M.S(s_b))))]
         if rng.random() < 0.5:
             geoms = geoms[::-1]
         for num, geom in enumerate(geoms, start=1):
